@@ -193,11 +193,14 @@ struct Outcome {
 /// prefix calls, then `outer` with the inner calls `inner` (indices into the list of calls that
 /// are possible at that moment) injected before its k-th atomic operation
 fn scenario<P: Prim>(param: &str, prefix: &[(usize, String)], outer: (usize, &str), k: usize, inner: &[usize], post: Option<usize>) -> Outcome {
-    scenario_w::<P>(param, prefix, outer, k, inner, &post.into_iter().collect::<Vec<_>>(), false)
+    let inner: Vec<(usize, usize)> = inner.iter().map(|&j| (k, j)).collect();
+    scenario_w::<P>(param, prefix, outer, k, &inner, &post.into_iter().collect::<Vec<_>>(), false)
 }
 
 /// `wrap`: indices are taken modulo the number of possible calls (random mode); several post calls
-fn scenario_w<P: Prim>(param: &str, prefix: &[(usize, String)], outer: (usize, &str), k: usize, inner: &[usize], post: &[usize], wrap: bool) -> Outcome {
+/// `inner`: (preemption point, call index) pairs in non-decreasing order of the point: the calls
+/// injected before the outer call's k-th atomic operation, for several k
+fn scenario_w<P: Prim>(param: &str, prefix: &[(usize, String)], outer: (usize, &str), k: usize, inner: &[(usize, usize)], post: &[usize], wrap: bool) -> Outcome {
     record_atomics(true);
     let _ = take_atomic_log();
     let p = P::new(param);
@@ -211,14 +214,16 @@ fn scenario_w<P: Prim>(param: &str, prefix: &[(usize, String)], outer: (usize, &
     let oob = Rc::new(Cell::new(false));
     {
         let (run2, fired2, oob2) = (run.clone(), fired.clone(), oob.clone());
-        let inner: Vec<usize> = inner.to_vec();
+        let inner: Vec<(usize, usize)> = inner.to_vec();
         let outer_agent = outer.0;
         let mut count = 0usize;
         set_preempt_hook(Some(Box::new(move || {
             if count == k {
                 fired2.set(true);
+            }
+            if count == k || inner.iter().any(|x| x.0 == count) {
                 run2.drain(outer_agent);
-                for &j in &inner {
+                for &(_, j) in inner.iter().filter(|x| x.0 == count) {
                     let mut all: Vec<(usize, &'static str)> = Vec::new();
                     for b in 0..P::agents() {
                         if b != outer_agent {
@@ -312,7 +317,7 @@ fn scenario_w<P: Prim>(param: &str, prefix: &[(usize, String)], outer: (usize, &
         outer.0,
         outer.1,
         k,
-        inner.iter().map(|j| j.to_string()).collect::<Vec<_>>().join(","),
+        inner.iter().map(|(kk, j)| if *kk == k { j.to_string() } else { format!("{}:{}", kk, j) }).collect::<Vec<_>>().join(","),
         post.iter().map(|j| j.to_string()).collect::<Vec<_>>().join(",") + if wrap { "w" } else { "" }
     );
     let line = format!("{} {} {} | {} {}", P::name(), P::agents(), P::header_param(param), key, run.ev.borrow().join(" "));
@@ -398,6 +403,18 @@ fn explore<P: Prim>(param: &str, prefix: &mut Vec<(usize, String)>, depth: usize
                     while with_posts::<P>(param, prefix, (a, c), k, &[j1, j2], post_n, out, st) {
                         j2 += 1;
                     }
+                    // two preemptions: the second call before a later operation of the outer call
+                    for k2 in k + 1..k + 4 {
+                        let mut j2 = 0;
+                        loop {
+                            let o = scenario_w::<P>(param, prefix, (a, c), k2, &[(k, j1), (k2, j2)], &[], false);
+                            if o.oob || !o.fired {
+                                break;
+                            }
+                            emit(&o, out, st);
+                            j2 += 1;
+                        }
+                    }
                 }
                 j1 += 1;
             }
@@ -466,9 +483,10 @@ fn run_random<P: Prim>(seed: u64, count: usize, maxdepth: usize) {
             continue;
         }
         let (a, c) = calls[rng.below(calls.len())];
-        let k = rng.below(5);
-        let inner: Vec<usize> = (0..1 + rng.below(3)).map(|_| rng.below(1 << 20)).collect();
+        let mut inner: Vec<(usize, usize)> = (0..1 + rng.below(3)).map(|_| (rng.below(5), rng.below(1 << 20))).collect();
+        inner.sort();
         let post: Vec<usize> = (0..rng.below(3)).map(|_| rng.below(1 << 20)).collect();
+        let k = inner.iter().map(|x| x.0).max().unwrap_or(0);
         let o = scenario_w::<P>(&param, &prefix, (a, c), k, &inner, &post, true);
         emit(&o, &mut out, &mut st);
     }
@@ -505,7 +523,16 @@ fn replay<P: Prim>(param: &str, key: &str) {
     let prefix: Vec<(usize, String)> = parts[0].split(',').filter(|s| !s.is_empty()).map(pc).collect();
     let outer = pc(parts[1]);
     let k: usize = parts[2].parse().unwrap();
-    let inner: Vec<usize> = parts.get(3).unwrap_or(&"").split(',').filter(|s| !s.is_empty()).map(|s| s.parse().unwrap()).collect();
+    let inner: Vec<(usize, usize)> = parts
+        .get(3)
+        .unwrap_or(&"")
+        .split(',')
+        .filter(|s| !s.is_empty())
+        .map(|s| match s.split_once(':') {
+            Some((kk, j)) => (kk.parse().unwrap(), j.parse().unwrap()),
+            None => (k, s.parse().unwrap()),
+        })
+        .collect();
     let p4 = parts.get(4).copied().unwrap_or("");
     let wrap = p4.ends_with('w');
     let post: Vec<usize> = p4.trim_end_matches('w').split(',').filter(|s| !s.is_empty()).map(|s| s.parse().unwrap()).collect();
